@@ -194,8 +194,11 @@ func genField(e *emitter, r *rng, n int) {
 		case 9:
 			e.line("F.iszero", a)
 		case 10:
-			if r.intn(2) == 0 {
+			switch r.intn(4) {
+			case 0:
 				b = a
+			case 1, 2:
+				b = showL(r.nearEqual(parseL(a), bigP))
 			}
 			e.line("F.eq", a, b)
 		case 11:
@@ -300,8 +303,11 @@ func genScalarField(e *emitter, r *rng, n int) {
 		case 9:
 			e.line("S.h2f", hex.EncodeToString(r.bytes48Edge(bigN)))
 		case 10:
-			if r.intn(2) == 0 {
+			switch r.intn(4) {
+			case 0:
 				b = a
+			case 1, 2:
+				b = showL(r.nearEqual(parseL(a), bigN))
 			}
 			e.line("S.eq", a, b)
 		case 11:
@@ -356,8 +362,11 @@ func genScalarAPI(e *emitter, r *rng, n int) {
 		case 6:
 			e.line("SC.setu64", []string{"0", "1", "ffffffffffffffff", "8000000000000000", fmt.Sprintf("%x", r.next())}[r.intn(5)])
 		case 7:
-			if r.intn(2) == 0 {
+			switch r.intn(4) {
+			case 0:
 				b = a
+			case 1, 2:
+				b = showL(r.nearEqual(parseL(a), bigN))
 			}
 			e.line("SC.eq", a, optS(r, b))
 		case 8:
@@ -416,9 +425,41 @@ func genScalarAPI(e *emitter, r *rng, n int) {
 }
 
 // pair of points covering the exceptional classes of the addition law
+// lineMate returns another curve point Q with x(Q) + s*y(Q) = x(P) + s*y(P) (s = +-1), if one exists: distinct elements
+// whose coordinate differences cancel under a comparison that merges the two cross-multiplied tests linearly.
+func lineMate(p apt, sign int64) (apt, bool) {
+	if p.inf {
+		return p, false
+	}
+	// y = s*(c - x), c = x1 + s*y1  =>  x^3 - x^2 + 2c x + 7 - c^2 = 0; dividing by (x - x1): x^2 + a x + b
+	c := modP(new(big.Int).Add(p.x, new(big.Int).Mul(big.NewInt(sign), p.y)))
+	a := modP(new(big.Int).Sub(p.x, big1))
+	b := modP(new(big.Int).Add(new(big.Int).Lsh(c, 1), new(big.Int).Mul(a, p.x)))
+	disc := modP(new(big.Int).Sub(new(big.Int).Mul(a, a), new(big.Int).Lsh(b, 2)))
+	sq, ok := sqrtP(disc)
+	if !ok {
+		return p, false
+	}
+	inv2 := new(big.Int).ModInverse(big.NewInt(2), bigP)
+	x2 := modP(new(big.Int).Mul(new(big.Int).Sub(sq, a), inv2))
+	y2 := modP(new(big.Int).Mul(big.NewInt(sign), new(big.Int).Sub(c, x2)))
+	// on-curve check (guards the derivation)
+	lhs := modP(new(big.Int).Mul(y2, y2))
+	rhs := modP(new(big.Int).Add(new(big.Int).Mul(x2, new(big.Int).Mul(x2, x2)), big.NewInt(7)))
+	if lhs.Cmp(rhs) != 0 || (x2.Cmp(p.x) == 0 && y2.Cmp(p.y) == 0) {
+		return p, false
+	}
+	return apt{x: x2, y: y2}, true
+}
+
 func (r *rng) pointPair() (rawPt, rawPt) {
 	p := r.affinePoint()
 	var q apt
+	if r.intn(8) == 0 {
+		if m, ok := lineMate(p, []int64{1, -1}[r.intn(2)]); ok {
+			return proj(p, r.lambda()), proj(m, r.lambda())
+		}
+	}
 	switch r.intn(6) {
 	case 0:
 		q = p
@@ -470,7 +511,13 @@ func genPoints(e *emitter, r *rng, n int, withMul int) {
 	for guard := 0; e.n < base+withMul && guard < 50*withMul; guard++ {
 		_, p := r.point()
 		k := "nil"
-		if r.intn(12) != 0 {
+		if c := r.intn(12); c == 1 {
+			// raw limb patterns (a value used directly as Montgomery limbs: catches canonical/Montgomery domain confusions)
+			k = showL(r.scCanon())
+		} else if c == 2 {
+			k = showL([]limbs{{1, 0, 0, 0}, {2, 0, 0, 0}, {0, 1, 0, 0}, {0, 0, 0, 1}, bigToLimbs(new(big.Int).Mod(bigR, bigN)),
+				bigToLimbs(new(big.Int).Mod(new(big.Int).Mul(bigR, bigR), bigN)), bigToLimbs(new(big.Int).Sub(bigN, big1))}[r.intn(7)])
+		} else if c != 0 {
 			k = showL(montN(r.scalarVal()))
 		}
 		e.line("PT.mul", argsP(p), k)
@@ -550,10 +597,48 @@ func smallXPoints(k int) []apt {
 	return out
 }
 
+// points whose x (resp. y) is just below p: canonical encodings at the top of the range
+func highXPoints(k int) []apt {
+	var out []apt
+	for d := int64(1); len(out) < k && d < 4000; d++ {
+		x := new(big.Int).Sub(bigP, big.NewInt(d))
+		c := modP(new(big.Int).Add(new(big.Int).Mul(x, new(big.Int).Mul(x, x)), big.NewInt(7)))
+		if y, ok := sqrtP(c); ok {
+			out = append(out, apt{x: x, y: y})
+		}
+	}
+	return out
+}
+
+func highYPoints(k int) []apt {
+	var out []apt
+	for d := int64(1); len(out) < k && d < 4000; d++ {
+		y := new(big.Int).Sub(bigP, big.NewInt(d))
+		c := modP(new(big.Int).Sub(new(big.Int).Mul(y, y), big.NewInt(7)))
+		if x, ok := cbrtP(c); ok {
+			out = append(out, apt{x: x, y: y})
+		}
+	}
+	return out
+}
+
+var highPts []apt
+
 func (r *rng) encodingCase(smallX, smallY []apt) []byte {
 	p := r.affinePoint()
 	for p.inf {
 		p = r.affinePoint()
+	}
+	if highPts == nil {
+		highPts = append(highXPoints(6), highYPoints(3)...)
+		highPts = append(highPts, smallX...)
+		highPts = append(highPts, smallY...)
+	}
+	if r.intn(7) == 0 { // valid points with extreme coordinates (x or y within a few thousand of 0 or p)
+		p = highPts[r.intn(len(highPts))]
+		if r.intn(2) == 0 {
+			p = aNeg(p)
+		}
 	}
 	c := encCompressed(p)
 	u := encUncompressed(p)
@@ -679,6 +764,41 @@ func genDecode(e *emitter, r *rng, n int) {
 				s = "0x" + s
 			}
 			e.line("DEC.hex", argsP(recv), showB([]byte(s)))
+		}
+	}
+}
+
+// valid encodings only (C04 round trip): Decode(Encode(P)) gives back P
+func genRoundTrip(e *emitter, r *rng, n int) {
+	ext := append(append(append(highXPoints(6), highYPoints(3)...), smallXPoints(4)...), smallYPoints(2)...)
+	for guard := 0; e.n < n && guard < 200*n+1000; guard++ {
+		_, recv := r.point()
+		p := r.affinePoint()
+		if r.intn(5) == 0 {
+			p = ext[r.intn(len(ext))]
+			if r.intn(2) == 0 {
+				p = aNeg(p)
+			}
+		}
+		switch r.intn(5) {
+		case 0:
+			e.line("DEC.any", argsP(recv), showB(encCompressed(p)))
+		case 1:
+			if p.inf {
+				e.line("DEC.any", argsP(recv), showB([]byte{0}))
+			} else {
+				e.line("DEC.any", argsP(recv), showB(encUncompressed(p)))
+			}
+		case 2:
+			if !p.inf {
+				e.line("DEC.comp", argsP(recv), showB(encCompressed(p)))
+			}
+		case 3:
+			if !p.inf {
+				e.line("DEC.uncomp", argsP(recv), showB(encUncompressed(p)))
+			}
+		case 4:
+			e.line("DEC.unmarshal", argsP(recv), showB(encCompressed(p)))
 		}
 	}
 }
@@ -885,6 +1005,8 @@ func genOps(family string, seed uint64, n int) {
 		genMap(e, r, n)
 	case "decode":
 		genDecode(e, r, n)
+	case "roundtrip":
+		genRoundTrip(e, r, n)
 	case "xmd":
 		genXMD(e, r, n)
 	case "h2c":
@@ -935,4 +1057,33 @@ var subFamilies = map[string]subFamily{
 	"fh2f":     {"field", []string{"F.h2f"}},
 	"fsqrt":    {"field", []string{"F.sqrt", "F.inv", "F.exp", "F.sgn", "F.cmov", "F.iszero"}},
 	"expand":   {"xmd", []string{"XMD.expand"}},
+}
+
+// nearEqual derives b from a by xor-ing masks into a chosen subset of limbs (the same mask in every chosen limb half
+// of the time): operands that differ but would compare equal under a comparison that drops or merges limbs.
+func (r *rng) nearEqual(a limbs, m *big.Int) limbs {
+	b := a
+	mask := uint64(1) << uint(r.intn(64))
+	if r.intn(3) == 0 {
+		mask = r.next()
+	}
+	same := r.intn(2) == 0
+	n := 0
+	for i := range b {
+		if r.intn(2) == 0 {
+			mk := mask
+			if !same {
+				mk = uint64(1) << uint(r.intn(64))
+			}
+			b[i] ^= mk
+			n++
+		}
+	}
+	if n == 0 {
+		b[r.intn(4)] ^= mask
+	}
+	if limbsToBig(b).Cmp(m) >= 0 {
+		b[3] &= 0x7fffffffffffffff
+	}
+	return b
 }
